@@ -161,8 +161,9 @@ theorem glomit_ok (p : Prims) {rec : Rec σ} {fuel} (hIH : IH rec fuel) (spec : 
       (argVal_ok (S (mode sc) _) target kwargs ⟨hno.2, fun _ hx => mem_append_r hx⟩ sc rfl)
     intro kw
     split
-    · apply Hoare.bind (logOK_rel _) (callFn_ok ..); hauto
-    · apply Hoare.bind (logOK_rel _) (callFn_ok ..); hauto
+    · split
+      · apply Hoare.bind (logOK_rel _) (callFn_ok ..); hauto
+      · hauto
     · hauto
   | invoke func fis blocks =>
     simp only [glomit, annotF, noRefF, Bool.and_eq_true] at *
